@@ -3,6 +3,7 @@ import EtkVerif.Driver.Util
 import EtkVerif.Asm.Parse
 import EtkVerif.Asm.Assemble
 import EtkVerif.Asm.Spec
+import EtkVerif.Asm.FuelLemmas
 namespace EtkVerif.Driver
 open EtkVerif Asm
 
@@ -53,6 +54,8 @@ def decodeUtf8 (bytes : List Nat) : Option (List Nat) :=
 level, so a bound above the source length can never be the reason for an answer -/
 def asmFuel : Nat := 100000
 def asmFuelFor (n : Nat) : Nat := asmFuel + 2 * n
+/-- the bound of `assemble_fuel_sufficient` (C14_terminates): with it the fuel marker cannot be the answer -/
+def asmFuelOps (n : Nat) (rs : List RawOp) : Nat := max (asmFuelFor n) ((maxMacroDepth + 2) * (opsSize (RawOps.ofList rs) + 2))
 
 /-- `asm <hex source>`: without a file system every directive fails to resolve.
 `useSpec`: run the reference semantics (`Spec.assembleScope`) instead of the model. -/
@@ -75,8 +78,8 @@ def cmdAsmWith (useSpec : Bool) (args : List String) : String :=
           match raws nodes with
           | none => "err Io canonicalizing_include/import"
           | some rs =>
-            let r := if useSpec then Spec.assembleScope (fun k => k) (asmFuelFor text.length) 0 (RawOps.ofList rs)
-                     else assemble (fun k => k) (asmFuelFor text.length) {} (RawOps.ofList rs)
+            let r := if useSpec then Spec.assembleScope (fun k => k) (asmFuelOps text.length rs) 0 (RawOps.ofList rs)
+                     else assemble (fun k => k) (asmFuelOps text.length rs) {} (RawOps.ofList rs)
             match r with
             | .ok (bytes, _) => s!"ok {hx bytes}"
             | .error e => showAsmErr e
